@@ -3,10 +3,11 @@ from .. import core
 
 PROP = "C18"
 MODULE = "GmqttVerif.Properties.C18"
-THEOREMS = ["GmqttVerif.WsConn.ws_stream_exact", "GmqttVerif.WsConn.ws_stream_exact_fails_as_is",
+THEOREMS = ["GmqttVerif.WsSource.ws_adapter_as_transcribed", "GmqttVerif.WsConn.ws_stream_exact", "GmqttVerif.WsConn.ws_stream_exact_fails_as_is",
             "GmqttVerif.WsConn.as_is_drops_last_byte", "GmqttVerif.WsConn.ws_text_rejected",
             "GmqttVerif.WsConn.ws_text_never_in_stream", "GmqttVerif.WsConn.ws_write_concat"]
 COMPS = ["wsconn", "wsecho"]
+NEEDS_FACTS = ["WsFuncs"]
 
 MSG_SIZES = [0, 1, 1, 2, 2, 3, 5, 17, 1023, 1024, 1025, 2047, 2048, 2049]
 READ_SIZES = [1, 2, 3, 7, 1023, 1024, 1024, 1025, 2047, 2048, 2049, 4096]
